@@ -166,6 +166,8 @@ def run(spec, R):
     names_pool = ('X', 'nb', 'dcl', 'b', 'zz', 'nm', 'mod')
     start = (spec['k'] + spec['seed']) % spec['n']
     picked = allv[start::spec['n']][::spec['stride']] if len(allv) > 4000 else allv
+    if spec['k'] == 0:
+        picked = by_n[1] + picked                 # every atom of the alphabet, whatever the sampling
     for i, a in enumerate(picked):
         A = refcat.from_ref(a)
         check_pair(a, a, R, rng)                                   # independently rebuilt equal copy
